@@ -479,7 +479,15 @@ func cmdCheck(args []string) int {
 			stale := ""
 			for _, u := range unbound {
 				if strings.HasPrefix(u, o.Func+":") && !strings.Contains(u, "no call to ") && !strings.Contains(u, "[every remaining loop is annotated]") {
-					stale = u
+					// only clauses that provide assumptions matter here (preconditions, loop invariants, rely / owns,
+					// contracts of callees); a site condition or postcondition that cannot be evaluated is itself an
+					// obligation and takes nothing away from the others
+					rest := strings.TrimSpace(strings.TrimPrefix(u, o.Func+":"))
+					for _, p := range []string{"loop ", "requires", "assume", "rely", "owns", "call ", "functype", "dyncall", "nolockif", "monitor", "structinv"} {
+						if strings.HasPrefix(rest, p) {
+							stale = u
+						}
+					}
 				}
 			}
 			if stale != "" {
